@@ -80,6 +80,17 @@ def main(tier):
                        rec.get("returned_id_is_current") is True and rec["returned_stamp_range"][0] >= 0,
                        key="issued|new_node hands out an id that already reads as removed", detail={k: rec.get(k) for k in ("value", "returned_stamp_range", "returned_id_is_current", "shape")},
                        nontrivial=("issued", rec.get("shape")))
+    # ---- the generation of a freed slot advances from the slot's stamp even when an older id of the slot is used to remove its occupant
+    fr = e2props.load(run, profiles, ["free_node"])
+    for (prof, entry), recs in sorted(fr.items()):
+        ns = 0
+        for rec in recs:
+            if rec.get("stale_id") and rec["exit"] == "return":
+                ns += 1
+                run.ob("stale-id", "free_node/%s through an older id: new stamp derived from the slot (%s)" % (prof, rec.get("x_stamp_post")), rec.get("x_stamp_from_slot") is True,
+                       key="stale-id|removing a recycled slot's occupant through an older id rewinds the slot's generation", detail={k: rec.get(k) for k in ("case", "x_stamp_post", "x_stamp_range")},
+                       nontrivial=("stale", rec.get("x_stamp_post")))
+        run.floor("free_node cases through an older id (%s)" % prof, ns, 1)
     # ---- E1: writers and callers
     prog = facts.load("dev", None)
     idx = rules.Index(prog)
